@@ -689,6 +689,87 @@ def run_mixred(c):
     return ck.result()
 
 
+@st.composite
+def segx_case(draw, tier=None):
+    d = draw(st.sampled_from([2, 3, 3]))
+    shape = draw(st.sampled_from([[2], [3], [4], [2, 3], [3, 2]]))
+    k = C.prod(shape)
+    segs = [[[draw(C.ints(5)) for _ in range(d)], [draw(C.ints(5)) for _ in range(d)]] for _ in range(k)]
+    rank = len(shape) + 2
+    axis = draw(st.sampled_from(list(range(len(shape) + 1)) + list(range(-rank - 1, -2))))
+    return {"d": d, "shape": shape, "segs": segs, "axis": axis, "t": draw(st.sampled_from([0, 1, 2, 3, -1])), "which": draw(st.integers(0, k - 1))}
+
+
+def run_segx(c):
+    """SegmentCollection.expand_dims(axis) for every admissible axis (non-negative and negative, plane and 3-space, one and two
+    collection axes): the result is the collection of the same segments with one more axis of length one - contains(single point)
+    is the exact answer at every position, midpoint / length / contains(own midpoints) agree with the collection built afresh from
+    the expanded vertex array."""
+    from fractions import Fraction
+
+    d, shape, axis = c["d"], list(c["shape"]), c["axis"]
+    k = C.prod(shape)
+    rank = len(shape) + 2
+    if d not in (2, 3) or len(c["segs"]) != k or not (0 <= axis <= len(shape) or -rank - 1 <= axis <= -3):
+        raise Skip("malformed")
+    S = [([Fraction(int(x)) for x in a], [Fraction(int(x)) for x in b]) for a, b in c["segs"]]
+    if any(len(a) != d or len(b) != d or a == b for a, b in S):
+        raise Skip("degenerate segment")
+    a0, b0 = S[c["which"] % k]
+    t = Fraction(int(c["t"]), 2)
+    p = [x + t * (y - x) for x, y in zip(a0, b0)]
+
+    def on(a, b, q):
+        e = [y - x for x, y in zip(a, b)]
+        w = [y - x for x, y in zip(a, q)]
+        if any(e[i] * w[j] != e[j] * w[i] for i in range(d) for j in range(i)):
+            return False
+        dot = sum(x * y for x, y in zip(e, w))
+        return 0 <= dot <= sum(x * x for x in e)
+
+    arr = np.array([[[float(x) for x in a] + [1.0], [float(x) for x in b] + [1.0]] for a, b in S]).reshape(tuple(shape) + (2, d + 1))
+    pos = axis if axis >= 0 else axis + rank + 1
+    truth = np.expand_dims(np.array([on(a, b, p) for a, b in S]).reshape(tuple(shape)), pos)
+    coll = SegmentCollection(arr.copy())
+    ck = Checker()
+    site = f"segments{d}.expand_dims({'neg' if axis < 0 else 'pos'})"
+    E, f = call(site, coll.expand_dims, axis)
+    if f:
+        return [f]
+    want = np.expand_dims(arr, pos)
+    if not ck.check(isinstance(E, SegmentCollection) and np.shape(E.array) == want.shape and np.array_equal(E.array, want), site + ":array", np.shape(getattr(E, "array", None))):
+        return ck.result()
+    fresh = SegmentCollection(want.copy())
+    P = Point(*[float(x) for x in p])
+    r, f = call(site + ".contains(point)", E.contains, P)
+    if f:
+        ck.add(f)
+    else:
+        r = np.asarray(r)
+        if ck.check(r.shape == truth.shape, site + ".contains(point):shape", (r.shape, truth.shape)):
+            ck.check(np.array_equal(r, truth), site + ".contains(point):value", (r.tolist(), truth.tolist()))
+    m, f = call(site + ".midpoint", lambda: E.midpoint)
+    if f:
+        ck.add(f)
+    else:
+        mf = fresh.midpoint
+        if ck.check(np.shape(m.array) == np.shape(mf.array), site + ".midpoint:shape", (np.shape(m.array), np.shape(mf.array))):
+            ck.check(m == mf, site + ".midpoint:value")
+            r, f = call(site + ".contains(midpoints)", E.contains, mf)
+            if f:
+                ck.add(f)
+            else:
+                ck.check(np.shape(r) == truth.shape and bool(np.all(r)), site + ".contains(midpoints)", np.shape(r))
+    ln, f = call(site + ".length", lambda: E.length)
+    if f:
+        ck.add(f)
+    else:
+        lf = np.asarray(fresh.length)
+        ck.check(np.shape(ln) == lf.shape and np.allclose(ln, lf, rtol=1e-9, atol=1e-9), site + ".length", np.shape(ln))
+    ck.check(np.array_equal(coll.array, arr), site + ":receiver-changed")
+    return ck.result()
+
+
 LAWS = [
     Law("collection_vs_single", lambda tier: case(tier), run, nontrivial, labels, {"quick": 3500, "thorough": 80000},
         "collection result at every position == single-object result there, with broadcasting", shard=250, mandatory=("one-axis", "several-axes", "one-axis+broadcast")),
@@ -711,6 +792,9 @@ LAWS = [
         {"quick": 600, "thorough": 8000}, "PolygonCollection of plane triangles with arbitrary representatives: collection answer = Triangle element answer = exact membership", shard=200, mandatory=("negative-representative",)),
     Law("collections_from_vertex_arguments", lambda tier: pcv_case(tier), run_pcv, lambda c: any(c["single"]), lambda c: [c["cls"], f"d{c['d']}"] + (["single-point-first"] if c["single"][0] and not all(c["single"][: (2 if c["cls"] == "SegmentCollection" else None)]) else []),
         {"quick": 600, "thorough": 8000}, "PolygonCollection / SegmentCollection built from vertex arguments mixing single points and point collections in every position", shard=200, mandatory=("single-point-first",)),
+    Law("segment_collection_expand_dims", lambda tier: segx_case(tier), run_segx, lambda c: True, lambda c: [f"d{c['d']}", "negative-axis" if c["axis"] < 0 else "non-negative-axis", f"{len(c['shape'])}-axes"],
+        {"quick": 400, "thorough": 6000}, "SegmentCollection.expand_dims for every admissible axis: contains / midpoint / length of the result, position by position, against exact membership and the collection built afresh", shard=200,
+        mandatory=("d3", "negative-axis")),
     Law("indexing", lambda tier: idx_case(tier), run_idx, lambda c: True, lambda c: [f"{c['kind']}{c['d']}", c["how"], "2-axes" if len(c["shape"]) > 1 else "1-axis"],
         {"quick": 1500, "thorough": 25000}, "coll[i], coll[i,j], iteration yield instances of the element class with attributes intact", shard=300, mandatory=("covlinecoll3",)),
 ]
